@@ -62,3 +62,42 @@ fn vf_config_generate_serialisations() {
     }
     println!("VF-SUMMARY test=config_generate_serialisations checked={} nontrivial={} bad={}", checked, checked, bad);
 }
+
+// C17: what `config generate` writes is accepted by every later command as long as source, generated file and lockfile are untouched -
+// also when monorail is started somewhere else than the configuration's directory and a file with the source's name exists in both
+// places (generate and the later check must mean the same file: the one relative to the working directory).
+#[test]
+fn vf_config_generate_then_use_from_another_directory() {
+    let td = tempfile::tempdir().unwrap();
+    let root = td.path();
+    let (mut checked, mut bad) = (0u64, 0u64);
+    for (cwd_rel, out_rel) in [(".", "sub/Monorail.json"), (".", "Monorail.json"), ("work", "../cfgs/Monorail.json")] {
+        checked += 1;
+        let case = root.join(format!("case{}", checked));
+        let cwd = if cwd_rel == "." { case.clone() } else { case.join(cwd_rel) };
+        std::fs::create_dir_all(&cwd).unwrap();
+        let out = if out_rel.starts_with("../") { case.join(&out_rel[3..]) } else { cwd.join(out_rel) };
+        std::fs::create_dir_all(out.parent().unwrap()).unwrap();
+        std::fs::create_dir_all(cwd.join("pkg")).unwrap(); std::fs::write(cwd.join("pkg/f"), b"x").unwrap();
+        std::fs::create_dir_all(out.parent().unwrap().join("pkg")).unwrap(); std::fs::write(out.parent().unwrap().join("pkg/f"), b"x").unwrap();
+        // a file called cfg.src in the working directory AND (with other bytes) beside the output file
+        std::fs::write(cwd.join("cfg.src"), b"the source, as seen from the working directory\n").unwrap();
+        if out.parent().unwrap() != cwd { std::fs::write(out.parent().unwrap().join("cfg.src"), b"another file of the same name beside the generated configuration\n").unwrap(); }
+        let input = "{\"source\":{\"path\":\"cfg.src\"},\"targets\":[{\"path\":\"pkg\"}]}";
+        let mut child = Command::new(BIN).current_dir(&cwd).arg("-f").arg(&out).args(["config", "generate"]).stdin(Stdio::piped()).stdout(Stdio::piped()).stderr(Stdio::piped()).spawn().unwrap();
+        child.stdin.take().unwrap().write_all(input.as_bytes()).unwrap();
+        let g = child.wait_with_output().unwrap();
+        let what = format!("`config generate -f <case>/{}` started in `<case>/{}` (a `cfg.src` exists in the working directory{}), then `config show` and `target show` with nothing touched", out_rel, cwd_rel, if out.parent().unwrap() != cwd { " and, with other content, beside the output file" } else { "" });
+        if !g.status.success() { bad += 1; println!("VF-FAIL {} :: generate failed: {} (C17)", what, String::from_utf8_lossy(&g.stderr).replace('\n', " ").chars().take(200).collect::<String>()); continue; }
+        for api in [vec!["config", "show"], vec!["target", "show"]] {
+            let o = Command::new(BIN).current_dir(&cwd).arg("-f").arg(&out).args(&api).output().unwrap();
+            if !o.status.success() { bad += 1; println!("VF-FAIL {} :: `{}` rejects the untouched triple: {} (C17)", what, api.join(" "), (String::from_utf8_lossy(&o.stdout) + String::from_utf8_lossy(&o.stderr)).replace('\n', " ").chars().take(260).collect::<String>()); break; }
+        }
+        // and an edit of the source (the file generate read) is noticed
+        std::fs::write(cwd.join("cfg.src"), b"edited\n").unwrap();
+        let o = Command::new(BIN).current_dir(&cwd).arg("-f").arg(&out).args(["config", "show"]).output().unwrap();
+        if o.status.success() { bad += 1; println!("VF-FAIL {} :: after editing the source file in the working directory `config show` still succeeds (C17)", what); }
+    }
+    println!("VF-SUMMARY test=config_generate_then_use_from_another_directory checked={} nontrivial={} bad={}", checked, checked, bad);
+}
+
